@@ -31,12 +31,12 @@ ASSUMPTIONS = [
 REQUIRED_COUNTERS = {"restores_compared": 60, "tuple_roundtrips_json": 40, "tuple_roundtrips_sqlite": 40, "prepopulated_folder": 15,
                      "no_batch_yet": 3, "after_set_samplers": 3, "convergence_stop": 3, "rl_scheduler": 3}
 SHARDS = {"quick": 16, "thorough": 16}
-SHARD_WATCHDOG = {"quick": 900, "thorough": 5400}
+SHARD_WATCHDOG = {"quick": 1500, "thorough": 10800}
 
 
 def gen_cases(tier, seed):
     k = 1 if tier == "quick" else 20
-    cases = [{"kind": "cal", "i": i, "seed": seed} for i in range(48 * k)]
+    cases = [{"kind": "cal", "i": i, "seed": seed} for i in range(96 * k)]
     cases += [{"kind": "tuple", "i": i, "seed": seed} for i in range(32 * k)]
     cases += [{"kind": "conv", "i": i, "seed": seed} for i in range(6 * k)]
     return cases
@@ -130,7 +130,7 @@ def run_cal(desc, ctx, out):
     batches = 0
     first = True
     for _ in range(nops):
-        op = str(rng.choice(["calibrate", "calibrate", "calibrate", "checkpoint", "restore", "set_samplers"]))
+        op = str(rng.choice(["calibrate", "calibrate", "calibrate", "checkpoint", "checkpoint", "restore", "set_samplers"]))
         if first and rng.random() < 0.15:
             op = "checkpoint"  # the no-batch-yet state
         first = False
@@ -138,7 +138,7 @@ def run_cal(desc, ctx, out):
             n = int(rng.integers(1, 4))
             wit["ops"].append(["calibrate", n])
             try:
-                with quiet(), G.time_limit(120):
+                with quiet(), G.time_limit(G.LIMIT):
                     cal.calibrate(n)
             except G.Timeout:
                 return
@@ -157,7 +157,18 @@ def run_cal(desc, ctx, out):
                 out["nontrivial"].append(jhash(wit))
         elif op == "checkpoint":
             f2 = ctx.scratch() / "explicit"
-            wit["ops"].append(["create_checkpoint", "other folder"])
+            dirty = batches >= 1 and rng.random() < 0.7
+            if dirty:
+                # the target already holds a complete checkpoint of an unrelated experiment (other loss, line-up, shapes)
+                try:
+                    cfg3 = CG.gen_config(rng, kinds=G.HISTORY_FREE, n_samplers=2, max_bs=2)
+                    with quiet():
+                        o3 = CG.build_calibrator(cfg3, folder=str(f2))
+                        o3.calibrate(int(rng.integers(1, 4)))
+                    c["explicit_checkpoint_into_used_folder"] = c.get("explicit_checkpoint_into_used_folder", 0) + 1
+                except Exception:  # noqa: BLE001
+                    dirty = False
+            wit["ops"].append(["create_checkpoint", "folder of another experiment" if dirty else "empty folder"])
             if batches == 0:
                 c["no_batch_yet"] = c.get("no_batch_yet", 0) + 1
             try:
